@@ -5,6 +5,7 @@ import Oracle.Util
      mts otsdb|otlp absent|other | num <text> | str <hex> <layoutSec|->                → sec=<n> | err
      mts prom <int64>                                                                  → sec=<n>
      mts norm <int64>                                                                  → sec=<n> | err
+   suite "timeproto":  tp <protocol> <form> <epochMs>  → stored=<ms> | stored=arrival   (see c16_proto.go)
    <text> is a JSON number token over the alphabet 0-9 . e E + - that starts with a digit or '-';
    <hex> the bytes of a string of printable ASCII without '"' and '\'. -/
 namespace Oracle.C16
@@ -58,6 +59,33 @@ def handle (cmd : String) (args : List String) : Option String :=
       | ["str", h, l] => (match strText? h, layout? l with
           | some s, some lo => showRes (extractTimeStamp (.str s lo))
           | _, _ => "bad-op")
+      | _ => "bad-op")
+  | "tp" => some (match args with
+      | [proto, form, msS] => (match msS.toNat? with
+          | none => "bad-op"
+          | some ms =>
+            if ms < 1000000000000 || ms ≥ 10000000000000 then "bad-op" else
+            let dec (n : Nat) : List Char := (toString n).toList
+            let pad3 (n : Nat) : List Char := [Nat.digitChar (n / 100), Nat.digitChar (n / 10 % 10), Nat.digitChar (n % 10)]
+            let r : Option (Int × Scalar) := match proto, form with
+              | "esbulk", "ms" => some (0, .num (dec ms))
+              | "esbulk", "s" => some (0, .num (dec (ms / 1000)))
+              | "esbulk", "ns-str" => some (0, .str (dec (ms * 1000000)) none)
+              | "esbulk", "ns-num" => some (0, .num (dec (ms * 1000000)))
+              | "esbulk", "frac-s" => some (0, .num (dec (ms / 1000) ++ '.' :: pad3 (ms % 1000)))
+              | "esbulk", "rfc3339" => some (0, .str "date".toList (some (ms : Int)))
+              | "esbulk", "absent" => some (0, .absent)
+              | "otlp", "ns" => some ((ms : Int), .absent)      -- time_unix_nano/10^6 put on the event; no `timestamp` key
+              | "otlp", "zero" => some (0, .absent)
+              | "loki", "ns-str" => some (0, .str (dec (ms * 1000000)) none)
+              | "splunk", "hec-time" => some (0, .absent)       -- nothing reads the envelope's `time`
+              | "splunk", "ts-ms" => some (0, .num (dec ms))
+              | _, _ => none
+            match r with
+            | none => "bad-op"
+            | some (h, sc) => (match ingestStored h sc with
+                | .ms n => s!"stored={n}"
+                | .now => "stored=arrival"))
       | _ => "bad-op")
   | "mts" => some (match args with
       | "otsdb" :: r => (match mscalar? r with | some m => showSec (otsdbTs m) | none => "bad-op")
